@@ -33,6 +33,11 @@ func checkC03(c *Ctx) {
 	c03Bind(c)
 	c03Cur(c)
 	c03Let(c)
+	// the generator's scope counter equals the scopes open at run time wherever a sub-form is compiled:
+	// otherwise a tail call or break leaves a stale function or let scope on the live stack, and the
+	// caller then resolves names in the callee's scopes
+	c.esReport("ES-S", "ES-MODEL")
+	c.checkGeneratorCtors("ES-CTOR")
 }
 
 // c03Let: `let` binds in parallel (every right-hand side is evaluated before
